@@ -154,7 +154,10 @@ def main_check(args):
             inconclusive.append("reference model no longer matches pinned programs: %r" % (fails[:2],))
     nshards = getattr(mod, "SHARDS", {}).get(tier, NCPU)
     timeout = getattr(mod, "TIMEOUT", {}).get(tier, 900 if tier == "quick" else 7200)
-    results, problems = _spawn(pid, tier, seed, nshards, timeout)
+    if hasattr(mod, "custom_run"):
+        results, problems = mod.custom_run(tier, seed, timeout)
+    else:
+        results, problems = _spawn(pid, tier, seed, nshards, timeout)
     inconclusive.extend(problems)
 
     known = load_known()
